@@ -89,6 +89,7 @@ SEPY = "):y=<class 'str'>("
 for _ps in POOLSETS.values():
     _ps.update(RICH)
     _ps["fixed7"] = [7]
+    _ps["picky"] = ["", "n", "boom"]
 for _ps in POOLSETS.values():
     _ps["sepx"] = ["1", "1" + SEPY + "2", "q"]
     _ps["sepy"] = ["3", "2" + SEPY + "3", "q"]
@@ -97,7 +98,7 @@ for _ps in POOLSETS.values():
 VARIANTS: dict[tuple[str, str, int], object] = {}
 
 POOLSETS["sets"] = {
-    "sepx": ["a", "b", "c"], "sepy": ["a", "b", "c"], "fixed7": [7], **RICH,
+    "sepx": ["a", "b", "c"], "sepy": ["a", "b", "c"], "fixed7": [7], "picky": ["", "n", "boom"], **RICH,
     "str": ["x", "y", "z"],
     "int": [0, 1, 2],
     "optstr": [None, "c", "d"],
